@@ -1252,8 +1252,10 @@ impl<'a> CompilerState<'a> {
                                 var_type = match var_type {
                                     VariableType::Char => VariableType::CharPtr,
                                     _ => {
-                                        return Err(self
-                                            .syntax_error("Type too complex not supported", start))
+                                        return Err(self.syntax_error(
+                                            "Type too complex not supported",
+                                            p.as_span().start(),
+                                        ))
                                     }
                                 }
                             }
@@ -1775,7 +1777,7 @@ impl<'a> CompilerState<'a> {
                                             _ => {
                                                 return Err(self.syntax_error(
                                                     "Type too complex not supported",
-                                                    start,
+                                                    p.as_span().start(),
                                                 ))
                                             }
                                         }
@@ -2107,7 +2109,7 @@ impl<'a> CompilerState<'a> {
                                         _ => {
                                             return Err(self.syntax_error(
                                                 "Type too complex not supported",
-                                                start,
+                                                pair.as_span().start(),
                                             ))
                                         }
                                     }
